@@ -146,7 +146,7 @@ Proof.
       * split; [exact HI|apply finish_ok; exact Hprog].
   - destruct (prog t) as [|o r] eqn:Ep; [discriminate|].
     inversion Hprog as [|? ? Ho Hr]; subst.
-    destruct o as [g| |h| |h gs|ids]; cbn [call_ok] in Ho; try (destruct Ho; fail).
+    destruct o as [g| |h| |h gs|ids|i0 h0]; cbn [call_ok] in Ho; try (destruct Ho; fail).
     + injection E as <- <-. split; [exact HI|]. split; [exact Ho|exact Hr].
     + destruct (invp_step_core g0 G0 Pc cons_g cons_height pc_save pc_remove s RemoveLast HI I I I)
         as [HI' _]; [discriminate|].
@@ -173,6 +173,43 @@ Lemma locked_schedules s ts sched : InvC s -> Forall thread_ok ts ->
   let s' := fst (crun true g0 s ts sched) in InvC s' /\ Spec g0 s'.
 Proof.
   intros HI Hts. destruct (crun_inv sched s ts HI Hts) as [HI' _]. cbn zeta.
+  split; [exact HI'|exact (inv_spec g0 G0 Pc _ HI')].
+Qed.
+
+(* the same with environment events between the steps: sqlite rows lost at any moment, a process exit
+   at any moment (all threads gone, a call parked in CheckGroup lost, initGroupChain on the files) *)
+Lemma invc_set_sq s l q :
+  chain g0 l -> hd_error l = Some (last s) -> count s = N.of_nat (length l) ->
+  gcnt (st s) = count s -> gcur (st s) = Some (gid (last s)) ->
+  (forall x, groups (st s) x = lookup l x) ->
+  (forall h, idx (st s) h = option_map gid (lookup_h l h)) -> Pc l q -> InvC (set_sq s q).
+Proof.
+  intros. exists l. unfold set_sq. cbn [st count last groups idx gcur gcnt sq].
+  repeat (split; [assumption|]). assumption.
+Qed.
+
+Lemma crun_env_inv evs : forall s ts, InvC s -> Forall thread_ok ts ->
+  InvC (fst (crun_env true g0 s ts evs)) /\ Forall thread_ok (snd (crun_env true g0 s ts evs)).
+Proof.
+  induction evs as [|e r IH]; intros s ts HI Hts; cbn [crun_env]; [split; assumption|].
+  destruct e as [i|ids|].
+  - destruct (nth_error ts i) as [t|] eqn:Et; [|apply IH; assumption].
+    destruct (tstep true g0 s t) as [[s' t']|] eqn:E; [|apply IH; assumption].
+    destruct (tstep_inv s t s' t' HI (nth_error_forall _ _ _ _ Hts Et) E) as [HI' Ht'].
+    apply IH; [exact HI'|apply upd_nth_forall; assumption].
+  - apply IH; [|exact Hts].
+    destruct HI as (l & H1 & H2 & H3 & H4 & H5 & H6 & H7 & [H8 H9]).
+    apply (invc_set_sq s l); try assumption. split; [apply sqsub_drop; exact H8|exact H9].
+  - destruct HI as (l & H1 & H2 & H3 & H4 & H5 & H6 & H7 & [H8 H9]).
+    destruct (restart_heals_l g0 G0 s l H1 H2 H3 H4 H5 H6 H8) as (q & -> & [Hq _]).
+    apply IH; [|constructor].
+    apply (invc_set_sq s l); try assumption. split; assumption.
+Qed.
+
+Lemma locked_schedules_env s ts evs : InvC s -> Forall thread_ok ts ->
+  let s' := fst (crun_env true g0 s ts evs) in InvC s' /\ Spec g0 s'.
+Proof.
+  intros HI Hts. destruct (crun_env_inv evs s ts HI Hts) as [HI' _]. cbn zeta.
   split; [exact HI'|exact (inv_spec g0 G0 Pc _ HI')].
 Qed.
 End Locked.
